@@ -33,6 +33,9 @@ type Tr struct {
 	defaultProps []string
 	caseLabel    string
 	frameCount   int
+	curInstrIdx  int
+	curBlock     *ssa.BasicBlock
+	callCount    map[string]int
 	assumptions  map[string]bool
 	curPos       token.Pos
 	curFrame     *Frame
@@ -45,12 +48,16 @@ type Tr struct {
 	symTop       map[string]string
 	lastLoadTop  string
 	heapKind     map[string]string
+	evalDepth    int
+	curClause    string
+	lemmaProof   bool
+	revealed     map[string]bool
 }
 
 func newTr(g *Global, fn *ssa.Function, key string, fc *FuncContract) *Tr {
 	return &Tr{g: g, fn: fn, key: key, fc: fc, sc: newScript(), initVars: map[string]Value{}, heapSorts: map[string]string{},
-		typeFactDone: map[string]bool{}, oblCount: map[string]int{}, assumptions: map[string]bool{}, cntSyms: map[string]string{},
-		stores: map[string]storeRec{}, freshRefs: map[string]bool{}, symTop: map[string]string{}, heapKind: map[string]string{}}
+		typeFactDone: map[string]bool{}, oblCount: map[string]int{}, assumptions: map[string]bool{}, cntSyms: map[string]string{}, callCount: map[string]int{},
+		stores: map[string]storeRec{}, freshRefs: map[string]bool{}, symTop: map[string]string{}, heapKind: map[string]string{}, revealed: map[string]bool{}}
 }
 
 type retPoint struct {
@@ -628,6 +635,12 @@ func (fr *Frame) collectNames() {
 
 // lookupName resolves a source-level variable name at the entry of block at.
 func (fr *Frame) lookupName(name string, at *ssa.BasicBlock) (nameDef, bool) {
+	return fr.lookupNameAt(name, at, -1)
+}
+
+// lookupNameAt resolves a source-level variable name just before instruction index atIdx of block at
+// (atIdx < 0: at block entry, where only the block's phis are visible).
+func (fr *Frame) lookupNameAt(name string, at *ssa.BasicBlock, atIdx int) (nameDef, bool) {
 	defs := fr.names[name]
 	var best *nameDef
 	for i := range defs {
@@ -637,7 +650,7 @@ func (fr *Frame) lookupName(name string, at *ssa.BasicBlock) (nameDef, bool) {
 				continue
 			}
 			if d.block == at {
-				if _, isPhi := d.val.(*ssa.Phi); !isPhi {
+				if _, isPhi := d.val.(*ssa.Phi); !isPhi && d.idx >= atIdx {
 					continue
 				}
 			}
@@ -968,9 +981,12 @@ func (tr *Tr) backEdge(fr *Frame, li *loopInfo, from *ssa.BasicBlock, st *State)
 }
 
 func (tr *Tr) execBlock(fr *Frame, b *ssa.BasicBlock, st *State, li *loopInfo) {
-	for _, in := range b.Instrs {
+	for idx, in := range b.Instrs {
 		if st.guard == "false" {
 			return
+		}
+		if fr.top {
+			tr.curInstrIdx, tr.curBlock = idx, b
 		}
 		if p := in.Pos(); p.IsValid() {
 			tr.curPos = p
